@@ -691,7 +691,7 @@ fn drive_run(t: &mut Trace, d: &mut Drv, run: usize, len: usize) {
         let o = sys.obs();
         let rules: Vec<Value> = o["rules"].as_array().unwrap().clone();
         let now = seq(&sys.e) as i64;
-        let dt = *pick(&mut d.r, &[0i64, 0, 0, 0, 1, 1, 2]);
+        let dt = if d.r.gen_ratio(1, 25) { 3000 } else { *pick(&mut d.r, &[0i64, 0, 0, 0, 1, 1, 2]) };
         let anyid = |d: &mut Drv| -> i64 {
             if !rules.is_empty() && d.r.gen_bool(0.85) {
                 pick(&mut d.r, &rules)["id"].as_i64().unwrap()
